@@ -29,6 +29,7 @@ Inductive c14_case :=
 (* args; text of args2sh / args2cmd (or escape_shell_args with that style);
    what real shells (dash, bash) and shlex split the sh text into (None = not run) *)
 | CShell (args : list text) (o_sh o_cmd : res text) (shells : list (option (list text)))
+         (o_disp : option (res text * res text))   (* escape_shell_args with style=None, with an unknown style *)
 (* format_int_list(L, delim, rdelim, space) = o_fmt, then on o_fmt:
    parse_int_list, complement_int_list(start, stop), int_ranges_from_int_list *)
 | CInt (L : list Z) (delim rdelim : text) (space : bool) (start : Z) (stop : option Z)
@@ -51,6 +52,14 @@ Definition delims_ok (delim rdelim : text) : bool :=
   | _, _ => false
   end.
 
+(* ... and for multi-character delimiters whose first characters are distinctive enough *)
+Definition mdelims_ok (D RD : text) : bool :=
+  match D, RD with
+  | d0 :: _, r0 :: _ =>
+      negb (is_digit d0) && negb (d0 =? c_sp) && negb (memN d0 RD) && negb (is_digit r0) && negb (r0 =? c_sp)
+  | _, _ => false
+  end.
+
 Definition shells_ok (shells : list (option (list text))) (args : list text) : bool :=
   forallb (fun o => match o with None => true | Some ws => texts_eqb ws args end) shells.
 
@@ -61,9 +70,15 @@ Definition sep_of (delim : text) (space : bool) : text := if space then delim ++
 
 Definition c14_agree (c : c14_case) : bool :=
   match c with
-  | CShell args o_sh o_cmd _ =>
+  | CShell args o_sh o_cmd _ o_disp =>
       no_nul_b args && rtext_eqb o_sh (Ok (args2sh gen_sh_safe args))
       && rtext_eqb o_cmd (Ok (args2cmd args))
+      && match o_disp with
+         | None => true
+         | Some (o_def, o_unk) =>
+             rtext_eqb o_def (escape_shell_args gen_sh_safe args StyleDefault)
+             && rtext_eqb o_unk (escape_shell_args gen_sh_safe args StyleOther)
+         end
   | CInt L d rd space start stop o_fmt o_parse o_compl o_ranges =>
       let f := format_int_list d rd L space in
       text_eqb o_fmt f && rzs_eqb o_parse (parse_int_list f d rd)
@@ -82,7 +97,7 @@ Definition c14_agree (c : c14_case) : bool :=
 
 Definition c14_holds (c : c14_case) : bool :=
   match c with
-  | CShell args o_sh o_cmd shells =>
+  | CShell args o_sh o_cmd shells _ =>
       match o_sh, o_cmd with
       | Ok tsh, Ok tcmd =>
           option_eqb texts_eqb (sh_split tsh) (Some args)
@@ -91,12 +106,14 @@ Definition c14_holds (c : c14_case) : bool :=
       | _, _ => false
       end
   | CInt L d rd space start stop o_fmt o_parse o_compl o_ranges =>
-      negb (all_nonneg L && delims_ok d rd) ||
-      (let S := sort_dedup L in
-       text_eqb o_fmt (spec_format (sep_of d space) rd L)
-       && rzs_eqb o_parse (Ok S)
-       && rtext_eqb o_compl (Ok (spec_format d rd (spec_missing S start (window_end S start stop))))
-       && rranges_eqb o_ranges (Ok (spec_ranges L)))
+      (negb (all_nonneg L && mdelims_ok d rd) ||
+       (text_eqb o_fmt (spec_format (sep_of d space) rd L) && rzs_eqb o_parse (Ok (sort_dedup L)))) &&
+      (negb (all_nonneg L && delims_ok d rd) ||
+       (let S := sort_dedup L in
+        text_eqb o_fmt (spec_format (sep_of d space) rd L)
+        && rzs_eqb o_parse (Ok S)
+        && rtext_eqb o_compl (Ok (spec_format d rd (spec_missing S start (window_end S start stop))))
+        && rranges_eqb o_ranges (Ok (spec_ranges L))))
   | CRange s d rd start stop o_parse o_compl o_ranges =>
       (* a well-formed string must be read as the reference reads it ... *)
       (match d, rd with
@@ -136,7 +153,7 @@ Inductive c14_expl :=
 
 Definition c14_explain (c : c14_case) : c14_expl :=
   match c with
-  | CShell args o_sh o_cmd _ =>
+  | CShell args o_sh o_cmd _ _ =>
       XShell (args2sh gen_sh_safe args) (args2cmd args)
              (match o_sh with Ok t => sh_split t | _ => None end)
              (match o_cmd with Ok t => ms_split true t | _ => [] end)
